@@ -23,7 +23,7 @@
        duplicated).  NOT proved: that no handler raises and that the budget sequence is finite
        (the UCS argument); checked by the oracle on every complete run of the correspondence
        (symmetric routes): quiescence is reached, nothing raised, every agent reported done. *)
-From PyDcop Require Import Base Net M_Ucs P_Ucs.
+From PyDcop Require Import Base Net M_Ucs P_Ucs P_Ucs2 P_Ucs3 P_Ucs4 P_Ucs5.
 
 Theorem max_footprint_spec : forall C, wf C -> forall h, fp_nonneg h ->
   (forall S, NoDup S -> Z.of_nat (List.length S) <= c_ktarget C - 1 -> total_for h S <= max_footprint C h)
@@ -71,6 +71,44 @@ Theorem ucs_token_unique : forall C c o,
   forall cf, reachable (ucs_proto C) cf -> (tokens_in_flight C c cf <= 1)%nat.
 Proof. exact token_unique_l. Qed.
 
+(* ---- deepening (P_Ucs2..P_Ucs5): termination-related statements.
+   Guards: [guards C] = route costs between agents are symmetric, route costs and hosting costs are
+   non-negative; [uniq C] = a computation name is owned by one agent and the names of an agent's
+   computations are distinct.  Both are forced by the proofs; see design_notes/C25.md for what the
+   real code does outside them (asymmetric routes lose the token on an AssertionError).
+   (3) "every agent eventually reports replication done":
+       ucs_no_raise            no handler of any run raises (any schedule);
+       ucs_progress            an agent that has not reported done => a node is not started yet or
+                               a message is in flight (nothing is ever lost or stuck);
+       ucs_quiescent_all_done  in a quiescent configuration every agent has reported done.
+       NOT proved: the bound on the number of deliveries (the budget sequence is strictly
+       increasing over the finite set of path costs), i.e. that quiescence IS reached.
+   Key lemmas: ucs_token_invariant (the pure invariant of every token in flight: table costs =
+   path costs, spent = cost of the request path, budget >= 0, no table entry is a prefix of the
+   token's position), ucs_replicated_once (tokens of c + pending orders for its owner +
+   "orchestrator not started" + "c has an entry in _replica_hosts" <= 1). *)
+Theorem ucs_token_invariant : forall C, guards C -> forall cf, reachable (ucs_proto C) cf -> Inv2 C cf.
+Proof. exact reachable_inv2. Qed.
+
+Theorem ucs_replicated_once : forall C c o,
+  (forall d, owns C d c = true -> d = o) -> NoDup (own_names C o) ->
+  forall cf, reachable (ucs_proto C) cf -> (phi2 C c o cf <= 1)%nat.
+Proof. exact reachable_phi2. Qed.
+
+Theorem ucs_no_raise : forall C, guards C -> uniq C -> forall sched x k,
+  ~ In (EvRaise x k) (snd (run (ucs_proto C) sched)).
+Proof. exact ucs_no_raise_l. Qed.
+
+Theorem ucs_progress : forall C, guards C -> uniq C -> forall sched n, is_agent C n = true ->
+  (forall rh, ~ In (EvDone n rh) (snd (run (ucs_proto C) sched))) ->
+  (exists u, inU C u = true /\ w_running (nodes (fst (run (ucs_proto C) sched)) u) = false)
+  \/ (exists s d, chan (fst (run (ucs_proto C) sched)) s d <> []).
+Proof. exact ucs_progress_l. Qed.
+
+Theorem ucs_quiescent_all_done : forall C, guards C -> uniq C -> forall sched n, is_agent C n = true ->
+  quiescent C (fst (run (ucs_proto C) sched)) -> exists rh, In (EvDone n rh) (snd (run (ucs_proto C) sched)).
+Proof. exact ucs_quiescent_all_done_l. Qed.
+
 (* non-vacuity: a well-formed 3-agent deployment (k = 2) and a complete schedule in which four
    replicas are accepted (one with a non-empty hosted set) and every agent reports done *)
 Definition ex_cfg : cfg :=
@@ -81,12 +119,15 @@ Definition ex_sched : list (@action) :=
   [Start 0; Start 2; Start 1; Start (-5); Deliver (-5) 0; Deliver (-5) 2; Deliver (-5) 1;
    Deliver 2 1; Deliver 2 1; Deliver 1 2; Deliver 1 2; Deliver 1 2; Deliver 1 2; Deliver 2 1; Deliver 2 1].
 Example c25_non_vacuous :
-  wf ex_cfg /\
+  wf ex_cfg /\ guards ex_cfg /\ uniq ex_cfg /\
+  In (EvDone 1 [(0, [2]); (1, [2])]) (snd (run (ucs_proto ex_cfg) ex_sched)) /\
   In (EvAccept 1 3 2 10 [(2, (2, 3))]) (snd (run (ucs_proto ex_cfg) ex_sched)) /\
   In (EvRepl 1 0 [2]) (snd (run (ucs_proto ex_cfg) ex_sched)) /\
   In (EvDone 2 [(2, [1]); (3, [1])]) (snd (run (ucs_proto ex_cfg) ex_sched)) /\
   In (EvDone 0 []) (snd (run (ucs_proto ex_cfg) ex_sched)).
 Proof.
   split; [apply wf_b_sound; vm_compute; reflexivity|].
+  split; [apply guards_b_sound; vm_compute; reflexivity|].
+  split; [apply uniq_b_sound; vm_compute; reflexivity|].
   vm_compute. intuition.
 Qed.
